@@ -8,7 +8,7 @@
 // Private state (huffman thresholds) is reached in THIS translation unit only,
 // through the explicit-instantiation idiom (no macro, nothing changed in /repo).
 //
-// modes: --mode tree|marcus|lambda_outer|waiting   --seed S --shard k --n N
+// modes: --mode tree|rebuilt|marcus|lambda_outer|waiting   --seed S --shard k --n N
 #include "vfh.h"
 #include <cfloat>
 #include <votca/tools/constants.h>
@@ -80,11 +80,13 @@ struct TreeJudge {
 // exact measure of the selection function: 'find' maps p -> event index (or -1 for null / foreign)
 template <class Find>
 static void judge_tree(vfh::Reporter &R, const std::string &fam, const std::vector<double> &rates, std::vector<double> thr,
-                       double escape_rate, bool have_escape, Find find, TreeJudge &tj, const std::string &impl) {
+                       double escape_rate, bool have_escape, Find find, TreeJudge &tj, const std::string &impl, const std::string &kp = "tree/",
+                       const std::string &history = "") {
   long n = (long)rates.size();
   auto wit = [&]() {
     J w;
     w.s("implementation", impl).s("family", fam).vec("rates", rates).vec("thresholds_sorted", thr);
+    if (!history.empty()) w.raw("history", history);
     return w;
   };
   std::sort(thr.begin(), thr.end());
@@ -96,7 +98,7 @@ static void judge_tree(vfh::Reporter &R, const std::string &fam, const std::vect
   b.push_back(1.0);
   for (double t : thr)
     if (!(t >= -8 * EPS * n && t <= 1.0 + 8 * EPS * n)) {
-      R.violation("tree/threshold-outside-unit-interval", "a node threshold lies outside [0,1]", wit().d("threshold", t));
+      R.violation(kp + "threshold-outside-unit-interval", "a node threshold lies outside [0,1]", wit().d("threshold", t));
       return;
     }
   // ---- every p in [0,1] returns an event of this node: 0, 1, every threshold and its neighbours, mid-points
@@ -110,7 +112,7 @@ static void judge_tree(vfh::Reporter &R, const std::string &fam, const std::vect
     ++tj.probes;
     long e = find(p);
     if (e < 0 || e >= n) {
-      R.violation("tree/no-event-selected", "findHoppingDestination(p) for p in [0,1] returned null or an event of another node", wit().d("p", p).i("returned_index", e));
+      R.violation(kp + "no-event-selected", "findHoppingDestination(p) for p in [0,1] returned null or an event of another node", wit().d("p", p).i("returned_index", e));
       return;
     }
   }
@@ -126,7 +128,7 @@ static void judge_tree(vfh::Reporter &R, const std::string &fam, const std::vect
     // constancy on the open interval (monitor self-check: both ends next to the thresholds select the same event)
     double a1 = std::nextafter(lo, 2.0), a2 = std::nextafter(hi, -1.0);
     if (a1 < hi && a2 > lo && (find(a1) != e || find(a2) != e)) {
-      R.violation("tree/selection-not-piecewise-constant", "the selected event changes between two consecutive thresholds", wit().d("lo", lo).d("hi", hi));
+      R.violation(kp + "selection-not-piecewise-constant", "the selected event changes between two consecutive thresholds", wit().d("lo", lo).d("hi", hi));
       return;
     }
     if (find(hi) != e) ++at_threshold_differs;  // which side owns the threshold itself is not judged (measure zero)
@@ -140,14 +142,14 @@ static void judge_tree(vfh::Reporter &R, const std::string &fam, const std::vect
     LD tol = 1e-12L * want + tol_abs;
     if (fabsl(measure[i] - want) > tol) {
       std::vector<double> m(measure.begin(), measure.end());
-      R.violation("tree/measure-not-rate-proportional", "total length of the p-set selecting an event differs from rate/sum(rates)",
+      R.violation(kp + "measure-not-rate-proportional", "total length of the p-set selecting an event differs from rate/sum(rates)",
                   wit().i("event", i).d("measure", (double)measure[i]).d("expected", (double)want).d("tolerance", (double)tol).vec("measures", m));
       return;
     }
   }
   if (have_escape) {
     if (fabsl((LD)escape_rate - sum) > 4.0L * EPS * (LD)n * sum)
-      R.violation("tree/escape-rate-not-sum", "GNode::getEscapeRate() differs from the sum of the event rates", wit().d("escape_rate", escape_rate).d("sum", (double)sum));
+      R.violation(kp + (kp == "tree/" ? "escape-rate-not-sum" : "escape-rate"), "GNode::getEscapeRate() differs from the sum of the event rates", wit().d("escape_rate", escape_rate).d("sum", (double)sum));
   }
   if (R.want_sample() && n >= 3 && n <= 6) {
     std::vector<double> m(measure.begin(), measure.end());
@@ -231,6 +233,117 @@ static void run_trees(vfh::Reporter &R, vfh::Rng &r, long ntrees) {
     try { t.findHoppingDestination(0.5); } catch (const std::exception &) { threw = true; }
     if (!threw) R.violation("tree/lookup-before-makeTree", "findHoppingDestination on a tree that was never made did not throw", J());
   }
+}
+
+// ------------------------------------------------------------------ rebuilt trees
+// History on ONE GNode / huffmanTree object: build -> probe -> add events -> InitEscapeRate -> MakeHuffTree ->
+// probe again (1..4 rebuilds). This is what KMCLifetime does: LoadGraph builds every tree, ReadLifetimeFile adds a
+// decay event per site and rebuilds. The exact-measure oracle is applied after every (re)build with ALL current events.
+static void run_rebuilt(vfh::Reporter &R, vfh::Rng &r, long nhist) {
+  TreeJudge tj;
+  Segment seg("seg", 0);
+  std::vector<Segment> dsegs;
+  for (int k = 0; k < 100; ++k) dsegs.emplace_back("d", k + 1);
+  for (long it = 0; it < nhist; ++it) {
+    long n0 = r.coin(0.2) ? r.range(1, 3) : r.range(1, 60);
+    std::string fam;
+    std::vector<double> rates = gen_rates(r, n0, fam);
+    long rebuilds = r.range(1, 4);
+    bool direct = (it % 4 == 3);
+    // the additions of every step
+    std::vector<std::vector<double>> adds;
+    std::vector<std::string> kinds;
+    {
+      std::vector<double> cur = rates;
+      for (long b = 0; b < rebuilds; ++b) {
+        double mx = *std::max_element(cur.begin(), cur.end()), mn = *std::min_element(cur.begin(), cur.end());
+        std::vector<double> a;
+        int c = (int)r.range(0, 5);
+        std::string kind;
+        if (c == 0) { kind = "one_decay_like_event"; a.push_back(mn * r.uni(0.5, 2.0)); }
+        else if (c == 1) { kind = "one_event_comparable"; a.push_back(r.uni(mn, mx)); }
+        else if (c == 2) { kind = "several_events"; long k = r.range(2, 6); for (long q = 0; q < k; ++q) a.push_back(r.logu(mn * 0.5, mx * 2.0)); }
+        else if (c == 3) { kind = "one_much_larger_event"; a.push_back(mx * r.logu(1e3, 1e9)); }
+        else if (c == 4) { kind = "one_much_smaller_event"; a.push_back(mn * r.logu(1e-9, 1e-3)); }
+        else { kind = "equal_to_an_existing_event"; a.push_back(cur[r.range(0, (long)cur.size() - 1)]); }
+        for (double x : a) cur.push_back(x);
+        adds.push_back(a);
+        kinds.push_back(kind);
+      }
+    }
+    uint64_t h = 71 + (uint64_t)n0;
+    for (double x : rates) h = vfh::hdouble(h, x);
+    for (auto &a : adds) for (double x : a) h = vfh::hdouble(h, x);
+    auto history = [&](long step) {
+      std::string o = "[";
+      for (long b = 0; b < step; ++b) o += std::string(b ? "," : "") + J().i("rebuild", b + 1).s("kind", kinds[b]).vec("added_rates", adds[b]).str();
+      J j;
+      j.i("initial_events", n0).vec("initial_rates", std::vector<double>(rates.begin(), rates.begin() + n0)).raw("rebuilds_so_far", o + "]").i("rebuilds_planned", rebuilds);
+      return j.str();
+    };
+    vfh::set_case(J().s("family", fam).raw("history", history(rebuilds)).str());
+    if (!direct) {
+      std::vector<GNode> dests;
+      dests.reserve(200);
+      for (long k = 0; k < 100; ++k) dests.emplace_back(dsegs[k], QMStateType(QMStateType::Electron), true);
+      GNode node(seg, QMStateType(QMStateType::Electron), true);
+      std::vector<double> cur;
+      auto add = [&](double rate, bool decay) {
+        if (decay) node.AddDecayEvent(rate);
+        else node.AddEvent(&dests[cur.size() % 100], Eigen::Vector3d(1.0 * (double)cur.size(), 0, 0), rate);
+        cur.push_back(rate);
+      };
+      for (long k = 0; k < n0; ++k) add(rates[k], false);
+      for (long step = 0; step <= rebuilds; ++step) {
+        if (step > 0)
+          for (double x : adds[step - 1]) add(x, kinds[step - 1] == "one_decay_like_event" || r.coin(0.3));
+        node.InitEscapeRate();
+        node.MakeHuffTree();
+        const auto &tree = node.*rob_get(TagGNodeTree{});
+        const auto &hn = tree.*rob_get(TagGLinkHtree{});
+        std::vector<double> thr = thresholds_of(hn);
+        long n = (long)cur.size();
+        const GLink *base = node.Events().data();
+        auto find = [&](double p) -> long {
+          GLink *e = node.findHoppingDestination(p);
+          if (!e) return -1;
+          long idx = (long)(e - base);
+          if (idx < 0 || idx >= n || &node.Events()[idx] != e) return -2;
+          return idx;
+        };
+        R.eval(step == 0 ? "tree_rebuilt_gnode_first_build" : "tree_rebuilt_gnode_after_rebuild");
+        if (step > 0) R.counter("rebuild_kind_" + kinds[step - 1]);
+        judge_tree(R, fam, cur, thr, node.getEscapeRate(), true, find, tj, "GNode (rebuilt)", step == 0 ? "tree/" : "tree-rebuilt/", history(step));
+      }
+    } else {
+      std::vector<Ev> evs;
+      huffmanTree<Ev> tree;
+      std::vector<double> cur;
+      for (long k = 0; k < n0; ++k) { evs.push_back(Ev{rates[k]}); cur.push_back(rates[k]); }
+      for (long step = 0; step <= rebuilds; ++step) {
+        if (step > 0)
+          for (double x : adds[step - 1]) { evs.push_back(Ev{x}); cur.push_back(x); }
+        tree.setEvents(&evs);
+        tree.makeTree();
+        const auto &hn = tree.*rob_get(TagEvHtree{});
+        std::vector<double> thr = thresholds_of(hn);
+        long n = (long)cur.size();
+        auto find = [&](double p) -> long {
+          Ev *e = tree.findHoppingDestination(p);
+          if (!e) return -1;
+          long idx = (long)(e - evs.data());
+          return (idx < 0 || idx >= n) ? -2 : idx;
+        };
+        R.eval(step == 0 ? "tree_rebuilt_direct_first_build" : "tree_rebuilt_direct_after_rebuild");
+        if (step > 0) R.counter("rebuild_kind_" + kinds[step - 1]);
+        judge_tree(R, fam, cur, thr, 0, false, find, tj, "huffmanTree<Ev> (rebuilt)", step == 0 ? "tree/" : "tree-rebuilt/", history(step));
+      }
+    }
+    R.nontrivial(h);
+    R.counter("rebuild_histories");
+  }
+  R.counter("thresholds_probed", tj.thresholds);
+  R.counter("lookup_evaluations", tj.probes);
 }
 
 // ------------------------------------------------------------------ Marcus rates
@@ -471,6 +584,7 @@ int main(int argc, char **argv) {
   vfh::Reporter R;
   vfh::Rng rng((uint64_t)seed * 7919 + (uint64_t)shard * 104729 + vfh::hstr(3, mode) % 1000003);
   if (mode == "tree") run_trees(R, rng, n);
+  else if (mode == "rebuilt") run_rebuilt(R, rng, n);
   else if (mode == "marcus") run_marcus(R, rng, n, false);
   else if (mode == "lambda_outer") run_marcus(R, rng, n, true);
   else if (mode == "waiting") {
